@@ -393,7 +393,12 @@ static void runDict(const Case &c) {
       }
       emit("TX %zu bad=%zu%s", v.size(), bad, flaw.empty() ? "" : (" " + flaw).c_str());
     } else if (o == "meta") {
-      emit("M %zu %u", d->numElements(), d->maxLength());
+      // maxLength must bound every member and exceed the longest by at most one (C15)
+      size_t longest = 0;
+      for (auto &x : c.strs) longest = std::max(longest, x.size());
+      uint ml = d->maxLength();
+      if (ml >= longest && ml <= longest + 1) emit("M %zu ok", d->numElements());
+      else emit("M %zu BAD(maxLength=%u,longest=%zu)", d->numElements(), ml, longest);
     } else if (o == "save") {
       string img = saveImage(d);
       emit("S %zu %016llx", img.size(), (unsigned long long)fnv(img));
@@ -426,7 +431,7 @@ static void runDict(const Case &c) {
     } else if (o == "foreign") { // own loader of kind op[1] on this image
       string img = saveImage(d);
       std::stringstream ss(img, std::ios::in | std::ios::out | std::ios::binary);
-      StringDictionary *nd = loadOwn(op[1], ss, 1);
+      StringDictionary *nd = loadOwn(op[1], ss, op.size() > 2 ? (uint)atoi(op[2].c_str()) : 1);
       emit("F %s", nd ? "LOADED" : "NULL");
       delete nd;
     } else if (o == "blocksdet") { // blocksdet <strategy> <seed> <thr> <thr> ... : images equal the single-thread image
